@@ -34,12 +34,26 @@ field, attribute read-back, dumps equal to the one-shot class's, `==` / `!=` / h
 assignment on S(), parse), for EVERY field (the late ones included) a pair differing in exactly that field is unequal, bool
 against any(fields) on random / all-zero / one-field-non-zero instances, S() holding every field's zero value, positional /
 keyword / partial construction against assignment on S(), assignment of every field local to that field's bits and to the instance.
+
+Repeated discard members (harness/v5_c17.py): fixed-size structures that declare the discard name `_` two to four times (the library
+folds them into ONE field / constructor argument, so the declared member list is longer than the field-name list the generated
+methods are built from), interleaved with 2..7 named members whose neighbouring zero values differ (integers, bit-field runs that may
+contain `_` bit-fields, enums / flag, char[k], wchar[k], integer / 2-D / enum arrays, two nested structures, float16 / float / double,
+pointers); `_` members all of one type, integers of differing widths, or of mixed kinds; packed / aligned, compiled / interpreted,
+both endiannesses, pointer size 2 / 4 / 8, declared in one piece or completed by add_field / a start_update() block.  Every named
+field of T() holds ITS type's zero value (compared structurally) and T().dumps() is len(T) zero bytes; T(first=v), T(v1, v2),
+T(last=v), all-positional, all-keyword and random partial constructions give the values given, zero values elsewhere, and equal
+(==, hash, fields, dumps) the default instance with those fields assigned; equal instances made four ways are == and hash equally,
+a pair differing in any one name (also `_`) or in the class is !=; bool against any(fields); assignment of a named field changes only
+that field's bits, assignment of `_` no bit of a named field; parsed pairs are == exactly when all fields are equal.  The laws that
+dump are evaluated where the writer can encode the folded `_` value in every `_` member (see v5_c17.DUMP_MIXED_PADS for the
+excluded class and the behaviour of the unmodified library there).
 """
 from __future__ import annotations
 
 import itertools
 
-from .. import defs, impl, refimpl, s6_c17, u4_c17, v4_c17
+from .. import defs, impl, refimpl, s6_c17, u4_c17, v4_c17, v5_c17
 from ..common import Case, Result, mkrng
 from ..structprops import rand_bytes
 
@@ -63,7 +77,15 @@ def run(env) -> Result:
                 "add_field calls outside any block; packed/aligned x compiled/interpreted x endianness): on the class after the fault and after "
                 "the later steps keyword construction with every field, read-back, dumps against the one-shot declaration, ==/!=/hash of equal "
                 "instances made by keywords / assignment / parse, a differing pair for every field, bool on random / zero / one-non-zero-field "
-                "instances, defaults, partial construction, per-field assignment locality (bit masks from the one-shot reader). distinct = "
+                "instances, defaults, partial construction, per-field assignment locality (bit masks from the one-shot reader). v5_c17: structures "
+                "declaring the discard name `_` 2..4 times (folded into one field; all of one type / integers of differing widths / mixed kinds; "
+                "also as bit-fields) between named members of kinds with pairwise different zero values (int, bit-fields, enum, char[k], wchar[k], "
+                "arrays, nested, float, pointer), packed/aligned x compiled/interpreted x endianness x pointer size, one-shot or completed by "
+                "add_field / start_update(): structural zero value of every named field of T(), all-zero dumps of len(T), fixed and random "
+                "positional / keyword / partial constructions against assignment on T() (fields, ==, hash, dumps), equal instances made by "
+                "keywords / assignment / positionally / parse, a differing pair for every name and for the twin class, bool, assignment "
+                "locality by the reader's bit masks, parsed one-bit pairs == iff fields equal (dump laws only where every `_` member can "
+                "encode the folded `_` value). distinct = "
                 "(definition, instance bytes, operation); non-trivial = >= 2 fields")
     dc = impl.dc()
     rnd = mkrng(env["seed"], "c17")
@@ -222,6 +244,8 @@ def run(env) -> Result:
     u4_c17.run(env, res, viol, mkrng(env["seed"], "c17:u4"), 40 if tier == "quick" else 800)
     # definition histories with a fault inside an update block, then ordinary add_field calls: the value laws on the resulting class
     v4_c17.run(env, res, viol, mkrng(env["seed"], "c17:v4"), 120 if tier == "quick" else 1500)
+    # repeated discard members (`_` declared 2..4 times, folded into one field): defaults, construction, equality / hash / bool, locality
+    v5_c17.run(env, res, viol, mkrng(env["seed"], "c17:v5"), 150 if tier == "quick" else 2500)
     res.sample({"field_counts": counts, "colliding_names": RISKY[:8]})
     return res
 
